@@ -965,3 +965,42 @@ def set_iteration_sites(repo):
                     out.append((f, getattr(e, "lineno", f.node.lineno), kind,
                                 src(r)))
     return out
+
+
+def inline_locals(fnode, expr, depth=6):
+    """Copy of ``expr`` with every local that has exactly one assignment in
+    the function (plain ``name = value``) replaced by its value, repeatedly.
+    Makes an obligation about an expression independent of how its parts
+    are named, and ties it to where they come from."""
+    import copy
+    defs = {}
+    for n in ast.walk(fnode):
+        if isinstance(n, ast.Assign):
+            for t in n.targets:
+                for x in ast.walk(t):
+                    if isinstance(x, ast.Name):
+                        defs.setdefault(x.id, []).append(
+                            n.value if (x is t and len(n.targets) == 1)
+                            else None)
+        elif isinstance(n, (ast.AugAssign, ast.AnnAssign)) and \
+                isinstance(n.target, ast.Name):
+            defs.setdefault(n.target.id, []).append(None)
+        elif isinstance(n, (ast.For, ast.comprehension)):
+            for x in ast.walk(n.target):
+                if isinstance(x, ast.Name):
+                    defs.setdefault(x.id, []).append(None)
+    single = {k: v[0] for k, v in defs.items()
+              if len(v) == 1 and v[0] is not None}
+
+    class T(ast.NodeTransformer):
+        def visit_Name(self, node):
+            if isinstance(node.ctx, ast.Load) and node.id in single:
+                return copy.deepcopy(single[node.id])
+            return node
+    out = copy.deepcopy(expr)
+    for _ in range(depth):
+        before = ast.dump(out)
+        out = T().visit(out)
+        if ast.dump(out) == before:
+            break
+    return out
